@@ -1,5 +1,5 @@
 # replay of a bounded stand-in violation (C12): re-run native/c12_hw.py
 import sys
-print('Xunitary n=4 squeezers=repeated-on-two-pairs unitary=identity interleaved=False: raised IndexError: pop index out of range')
+print('Xcov n=4: S2gate on modes (0,1) was accepted')
 print('REPLAY-VIOLATION')
 sys.exit(1)
